@@ -21,6 +21,7 @@ cls(
         # I2: every schedulable (unblocked) stream has a send buffer
         ("H2.inv.I2", "forall_int('k', implies(k != 0 and sel(self.priority.has, k) and sel(self.priority.active, k), in_map(self.stream_buffers, k)))", "C04,C09"),
         ("H2.inv.no-zero", "not in_map(self.stream_buffers, 0)", "C04"),
+        ("H2.inv.has_data-clearable", "not self.has_data.g_sticky", "C09"),
     ],
     rely=[("H2.rely.closed-monotone", "implies(old(self.closed), self.closed)", "C03,C07")],
     task_rely={
